@@ -1857,9 +1857,9 @@ impl KotoVm {
                         self.set_register(result, display_context.result().into());
                         Ok(())
                     }
-                    // A timeout has to stay a timeout (and uncatchable)
-                    Err(error) if matches!(error.error, ErrorKind::Timeout(_)) => Err(error),
-                    Err(_) => runtime_error!("failed to get display value"),
+                    // The error is passed on unchanged: a value that was thrown by a nested
+                    // @display function keeps its type, and a timeout stays a timeout.
+                    Err(error) => Err(error),
                 }
             }
         }
@@ -1880,9 +1880,9 @@ impl KotoVm {
                         self.set_register(result, display_context.result().into());
                         Ok(())
                     }
-                    // A timeout has to stay a timeout (and uncatchable)
-                    Err(error) if matches!(error.error, ErrorKind::Timeout(_)) => Err(error),
-                    Err(_) => runtime_error!("failed to get display value"),
+                    // The error is passed on unchanged: a value that was thrown by a nested
+                    // @display function keeps its type, and a timeout stays a timeout.
+                    Err(error) => Err(error),
                 }
             }
         }
